@@ -326,7 +326,7 @@ package router
 //@   callsite RedisCache.Get?: [C07:redis-lookup-under-that-key] arg0 == c.redis && sameSlice(arg2, gkey, 0, len(gkey))
 //@   callsite Store?: [C07,C08:redis-hit-promoted-under-its-key-with-its-own-time-stamps] arg0 == c.memory && sameSlice(arg1, gkey, 0, len(gkey)) && arg2 == gS && arg3 == gX && arg4 == gRV && arg5 == true
 //@   callsite Since?: [C08:aged-by-the-time-since-the-hit-was-stored] arg0 == gS
-//@   ensures [C08:time-stamps-of-the-hit] m != nil ==> storedTime == gS && expireTime == gX
+//@   ensures [C08,C19:time-stamps-of-the-hit] m != nil ==> storedTime == gS && expireTime == gX
 // The client group of an address: the label of the configured range that contains it, "" when no range does, when
 // the address is invalid or when no ranges are configured (ranges are disjoint, so the label is unique).
 //@ spec func markerOK(m *ipMarker) bool = m.l != nil && listOK(m.l) && forall(k, 0, len(m.l.e), 0 <= m.l.e[k].v && m.l.e[k].v < len(m.s))
@@ -490,9 +490,9 @@ package router
 //@   ensures err != nil ==> resp == nil
 //@   ensures [C10:at-most-one-exchange] nEx <= 1
 //@   ensures [C20:own-objects] err == nil ==> ownSecs(resp)
-//@   ensures [C03:reply-is-about-the-question-asked] err == nil ==> len(resp.Questions) <= 1
+//@   ensures [C03,C07:reply-is-about-the-question-asked] err == nil ==> len(resp.Questions) <= 1
 // (checked where the reply is accepted; RemoveEDNS0 afterwards touches additional records only)
-//@   callsite RemoveEDNS0?: [C03:reply-is-about-the-question-asked] len(arg0.Questions) <= 1 && (len(arg0.Questions) == 1 ==> sameQuestionCI(arg0.Questions[0], q))
+//@   callsite RemoveEDNS0?: [C03,C07:reply-is-about-the-question-asked] len(arg0.Questions) <= 1 && (len(arg0.Questions) == 1 ==> sameQuestionCI(arg0.Questions[0], q))
 //@   callsite Exchange?: [C10:that-upstream-that-query] arg0 == upstream && arg1 == ctx && sameSlice(arg2, gw, 0, len(gw))
 
 //@ func (r *router) handleReq(ctx context.Context, q *dnsmsg.Question, rc *RequestContext)
